@@ -253,6 +253,10 @@ func (i *Interface) InsertValue(key string, attribute string, value interface{})
 	r.Lock()
 	defer r.Unlock()
 
+	// The storage may hold this very object: remember what is changed, in
+	// order to undo the change if the put is refused, eg. by a hook.
+	var undo func()
+
 	var acc accessor.Accessor
 	if r.IsWrapped() {
 		wrapper, ok := r.(*record.Wrapper)
@@ -260,8 +264,13 @@ func (i *Interface) InsertValue(key string, attribute string, value interface{})
 			return errors.New("record is malformed (reports to be wrapped but is not of type *record.Wrapper)")
 		}
 		acc = accessor.NewJSONBytesAccessor(&wrapper.Data)
+		dataBefore := wrapper.Data
+		undo = func() { wrapper.Data = dataBefore }
 	} else {
 		acc = accessor.NewStructAccessor(r)
+		if valueBefore, ok := acc.Get(attribute); ok {
+			undo = func() { _ = acc.Set(attribute, valueBefore) }
+		}
 	}
 
 	err = acc.Set(attribute, value)
@@ -269,8 +278,20 @@ func (i *Interface) InsertValue(key string, attribute string, value interface{})
 		return fmt.Errorf("failed to set value with %s: %w", acc.Type(), err)
 	}
 
+	var metaBefore record.Meta
+	if m := r.Meta(); m != nil {
+		metaBefore = *m
+	}
+
 	i.options.Apply(r)
-	return db.Put(r)
+	err = db.Put(r)
+	if err != nil {
+		if undo != nil {
+			undo()
+		}
+		*r.Meta() = metaBefore
+	}
+	return err
 }
 
 // Put saves a record to the database.
